@@ -32,7 +32,7 @@ from .common import Ctx, Failure, LeanStatus, Mismatch, Result
 
 PROP = "C03"
 
-TRIGGERS = ["trigSelf", "trigKwargs", "trigMerge", "trigQueryClobber", "trigShadow", "trigSerializeNullable", "trigSerializeList"]
+TRIGGERS = ["trigSelf", "trigKwargs", "trigMerge", "trigQueryClobber", "trigShadow", "trigMangled", "trigSerializeNullable", "trigSerializeList"]
 
 FINGERPRINTS = [
     ("ariadne_codegen/client_generators/arguments.py", "ArgumentsGenerator.generate"),
@@ -456,36 +456,32 @@ def child_pycall(items: List[Dict[str, Any]]) -> List[Dict[str, Any]]:
 # --------------------------------------------------------------------------------------------
 
 
-def py_triggers(ir: Dict[str, Any]) -> Dict[str, bool]:
-    """the finding-trigger predicates, computed from the REAL emitted signature and dict"""
+def is_mangled(name: str) -> bool:
+    """CPython private-name mangling applies to this identifier inside a class body"""
+    return name.startswith("__") and not name.endswith("__")
+
+
+def py_triggers(ir: Dict[str, Any], defs: List[Dict[str, Any]], case: Dict[str, Any]) -> Dict[str, bool]:
+    """the finding-trigger predicates: the name triggers from the REAL emitted signature and dict, the
+    serialize triggers from the variable definitions and the scalar configuration"""
     pys = [a["py"] for a in ir["args"]]
-    by_py = {a["py"]: a for a in ir["args"]}
     calls = [(k, v) for k, v in ir["dict"] if v["k"] == "call"]
     fns = {v["fn"] for _, v in calls}
+
+    def serialized(d: Dict[str, Any]) -> bool:
+        fam = case["scalars"].get(argwire.base_of(d["type"]))
+        return fam is not None and argwire.FAMILIES[fam]["serialize"] is not None
+
     return {
         "trigSelf": "self" in pys,
         "trigKwargs": "kwargs" in pys,
         "trigMerge": len(set(pys)) != len(pys),
         "trigQueryClobber": "query" in pys and "_query" in pys,
-        "trigShadow": any(p == "gql" or p in fns for p in pys),
-        "trigSerializeNullable": any(_arg_for(ir, v["py"], k)["optional"] for k, v in calls),
-        "trigSerializeList": any(_arg_for(ir, v["py"], k)["ann"]["k"] == "list" for k, v in calls),
+        "trigShadow": any(p == "gql" or p in fns for p in pys) or ir["locals"]["query"] in fns,
+        "trigMangled": any(is_mangled(p) for p in pys),
+        "trigSerializeNullable": any(serialized(d) and d["type"][0] != "nonnull" for d in defs),
+        "trigSerializeList": any(serialized(d) and argwire.is_list_type(d["type"]) for d in defs),
     }
-
-
-def _arg_for(ir: Dict[str, Any], py: str, key: str) -> Dict[str, Any]:
-    """the parameter a dict entry reads; with merged names the i-th dict entry belongs to the i-th variable"""
-    idx = [k for k, _ in ir["dict"]].index(key)
-    # parameters are emitted required-first; recover definition order through the dict order
-    same = [a for a in ir["args"] if a["py"] == py]
-    if len(same) == 1:
-        return same[0]
-    nth = [v["py"] for k, v in ir["dict"]][: idx + 1].count(py) - 1
-    req = [a for a in same if not a["optional"]]
-    opt = [a for a in same if a["optional"]]
-    ordered = req + opt
-    # definition order among equal names cannot be recovered exactly; any of them triggers the same findings
-    return ordered[min(nth, len(ordered) - 1)]
 
 
 def signature_line(kinds: Any, case: Dict[str, Any], o: Dict[str, Any]) -> Dict[str, Any]:
@@ -533,10 +529,13 @@ def run_direct(ctx: Ctx, st: Optional[LeanStatus], res: Result, cases: List[Dict
     outs = engine.pmap_forked(child_direct, [(ch,) for ch in chunks], timeout=300)
     lines: List[Dict[str, Any]] = []
     meta: List[Tuple[str, Dict[str, Any], Any]] = []
+    case_of: Dict[int, Dict[str, Any]] = {}
     for ch, (status, val) in zip(chunks, outs):
         if status != "ok":
             raise common.Infra(f"direct generator child failed: {status} {str(val)[:300]}")
         for case, rec in zip(ch, val):
+            for o in rec.get("ops", []):
+                case_of[id(o)] = case
             if "harness_error" in rec:
                 raise common.Infra(f"generated case is not valid GraphQL: {rec['harness_error']}\n{case['sdl']}\n{case['queries']}")
             if "observer_error" in rec:
@@ -581,7 +580,7 @@ def run_direct(ctx: Ctx, st: Optional[LeanStatus], res: Result, cases: List[Dict
                 res.mismatches.append(Mismatch("signature", inp, impl, mod, trig))
                 continue
             if "ir" in o:
-                pt = py_triggers(o["ir"])
+                pt = py_triggers(o["ir"], o["defs"], case_of[id(o)])
                 for t in TRIGGERS:
                     if pt[t]:
                         res.count("sig:inside:" + t)
@@ -734,28 +733,33 @@ def judge_call(case: Dict[str, Any], out: Dict[str, Any], call: Dict[str, Any], 
     return fails
 
 
-def trigger_for(ir: Optional[Dict[str, Any]], sig: str, var: Optional[str]) -> Optional[str]:
+def trigger_for(ir: Optional[Dict[str, Any]], defs: List[Dict[str, Any]], case: Dict[str, Any], sig: str, var: Optional[str],
+                detail: str = "") -> Optional[str]:
     """which finding region explains a failure (narrow: per variable where the failure names one)"""
     if ir is None:
         return None
-    pt = py_triggers(ir)
+    pt = py_triggers(ir, defs, case)
     if sig == "import-fails":
         for t in ("trigSelf", "trigKwargs", "trigMerge"):
             if pt[t]:
                 return t
         return None
-    entry = dict((k, v) for k, v in ir["dict"]).get(var) if var is not None else None
     if sig == "call-raises":
-        return "trigShadow" if pt["trigShadow"] else None
+        if pt["trigMangled"] and ("_Client__" in detail or "unexpected keyword argument '__" in detail):
+            return "trigMangled"
+        if pt["trigShadow"] and "not callable" in detail:
+            return "trigShadow"
+        return None
+    entry = dict((k, v) for k, v in ir["dict"]).get(var) if var is not None else None
     if entry is None:
         return None
     if entry["py"] == ir["locals"]["query"] and pt["trigQueryClobber"]:
         return "trigQueryClobber"
     if entry["k"] == "call":
-        arg = _arg_for(ir, entry["py"], var)
-        if arg["ann"]["k"] == "list":
+        d = next((d for d in defs if d["name"] == var), None)
+        if d is not None and argwire.is_list_type(d["type"]):
             return "trigSerializeList"
-        if arg["optional"]:
+        if d is not None and d["type"][0] != "nonnull":
             return "trigSerializeNullable"
     return None
 
@@ -809,11 +813,11 @@ def judge_e2e(ctx: Ctx, st: Optional[LeanStatus], res: Result, cases: List[Dict[
         if out.get("import") != "ok":
             res.count("e2e:import-failed")
             # which method made the module unimportable?
-            culprit = None
+            culprit, cdefs = None, []
             for name, ir in methods.items():
-                if name != "$canon_errors" and any(py_triggers(ir)[t] for t in ("trigSelf", "trigKwargs", "trigMerge")):
-                    culprit = ir
-            f = Failure("import-fails", trigger_for(culprit, "import-fails", None), {"case": inp_case, "calls": case.get("calls", [])[:1]},
+                if name != "$canon_errors" and any(py_triggers(ir, out["defs"].get(name, []), case)[t] for t in ("trigSelf", "trigKwargs", "trigMerge")):
+                    culprit, cdefs = ir, out["defs"].get(name, [])
+            f = Failure("import-fails", trigger_for(culprit, cdefs, case, "import-fails", None), {"case": inp_case, "calls": case.get("calls", [])[:1]},
                         out.get("import", ""))
             per_case[ci].append(f)
             continue
@@ -830,9 +834,9 @@ def judge_e2e(ctx: Ctx, st: Optional[LeanStatus], res: Result, cases: List[Dict[
                 continue
             fails = judge_call(case, out, call, rec)
             for sig, var, detail in fails:
-                trig = trigger_for(ir, sig, var)
+                trig = trigger_for(ir, out["defs"][call["op"]], case, sig, var, detail)
                 per_case[ci].append(Failure(sig, trig, {"case": inp_case, "calls": [call]}, f"op {call['op']} ${var}: {detail}"))
-            pt = py_triggers(ir) if ir else {}
+            pt = py_triggers(ir, out["defs"][call["op"]], case) if ir else {}
             inside = [t for t in TRIGGERS if pt.get(t)]
             res.count("e2e:call-inside-trigger" if inside else "e2e:call-outside-triggers")
             # correspondence lines
